@@ -335,8 +335,8 @@ def groupby_foreach(it, gb: GroupBy, bind, body, env):
     same = z_bool(val_eq(member_key, keyv))
     member_guard = z_and(z3.substitute(z_bool(loop.guard), *subst) if loop.guard is not True else True, same)
     member_order = [(B.subst_value(e, subst), d) for e, d in (loop.order or [])] or None
-    group = Seq([Loop(inner_binders, member_guard, [Lit(member_elem)], order=member_order,
-                      unordered=loop.unordered)], label='group')
+    group = Seq([Loop(inner_binders, z_and(*[b.constraint for b in []], member_guard), [Lit(member_elem)],
+                      order=member_order, unordered=loop.unordered)], label='group')
     group.group_of = gb
     # the outer loop ranges over *groups*: one iteration per distinct key; represented by the rows themselves
     # with the marker `grouped` (the family comparison treats the outer elements modulo the key)
